@@ -34,8 +34,9 @@ class LiveRender:
         Returns:
             Control: A control instance that may be printed.
         """
-        if self._shape is not None:
-            _, height = self._shape
+        shape = self._shape
+        if shape is not None:
+            _, height = shape
             return Control("\r\x1b[2K" + "\x1b[1A\x1b[2K" * (height - 1))
         return Control("")
 
@@ -45,8 +46,9 @@ class LiveRender:
         Returns:
             Control: A Control instance that may be printed.
         """
-        if self._shape is not None:
-            _, height = self._shape
+        shape = self._shape
+        if shape is not None:
+            _, height = shape
             return Control("\r" + "\x1b[1A\x1b[2K" * height)
         return Control("")
 
@@ -57,17 +59,17 @@ class LiveRender:
         lines = console.render_lines(self.renderable, options, style=style, pad=False)
         _Segment = Segment
         shape = _Segment.get_shape(lines)
-        if self._shape is None:
-            self._shape = shape
-        else:
+        previous_shape = self._shape
+        if previous_shape is not None:
             width1, height1 = shape
-            width2, height2 = self._shape
-            self._shape = (
+            width2, height2 = previous_shape
+            shape = (
                 max(width1, min(options.max_width, width2)),
                 max(height1, height2),
             )
+        self._shape = shape
 
-        width, height = self._shape
+        width, height = shape
         lines = _Segment.set_shape(lines, width, height)
         for last, line in loop_last(lines):
             yield from _Segment.make_control(line)
